@@ -78,6 +78,7 @@ def verify(pack, contract, externals=None, replay=None, witnesses=None, timeout_
         pack.vacuity['failed'].append('%s: no reachable exit (contradictory requires/invariants)' % contract.oname)
     reported = set()     # base names already reported as violation / known finding / undecided
     n = 0
+    viol0 = len(pack.violations)
     for name, hyps, goal, meta in obls:
         r = prove(name, hyps, goal, meta={k: v for k, v in meta.items() if isinstance(v, (str, int, float, bool))},
                   timeout_ms=timeout_ms, keep_smt2=(n < 1))
@@ -159,5 +160,17 @@ def verify(pack, contract, externals=None, replay=None, witnesses=None, timeout_
                                            'obligation_kind': name.split('/')[-1], 'native': conf})
                 else:
                     pack.undecided_obl(bname, d.get('note', ''))
+    if getattr(ex, 'gone_loops', None) and len(pack.violations) == viol0:
+        # a loop the contract states per-iteration obligations for is gone and nothing else failed: those obligations were never
+        # generated, so the pass would be vacuous -- the function counts as having left the verified subset
+        name = contract.oname + '/in-subset'
+        pack.add({'name': name, 'verdict': 'unknown', 'backend': 'symex', 'time_s': 0.0, 'model': None, 'smt2': None, 'meta': {},
+                  'note': 'unsupported: %s' % ex.gone_loops})
+        conf = run_replay(replay, name, {}, {}) if replay is not None else None
+        if conf and conf.get('confirmed'):
+            pack.violation(name, {'solver': 'none', 'solver_output': 'function left the verified subset: %s' % ex.gone_loops,
+                                  'function': contract.qualname, 'file': contract.file, 'native': conf})
+        else:
+            pack.undecided_obl(name, 'function left the verified subset: %s' % ex.gone_loops)
     pack.add_function(contract.qualname, contract.file, obligations=len(obls), paths=ex.npaths, sha=ex.sha, dropped=DROPS)
     return ex
